@@ -306,10 +306,13 @@ def rule_X4(ctx: Ctx) -> None:
     ok = len(tl) == 1 and X.U(N.kwarg(tl[0], "start_pos")) == "start_pos" and X.U(N.kwarg(tl[0], "end_pos")) == "end_pos"
     sp = X.assignments_to(fp.node, "start_pos")
     ep = X.assignments_to(fp.node, "end_pos")
-    se = [s for s in ast.walk(fp.node) if isinstance(s, ast.Assign) and X.U(s.targets[0]).replace(" ", "") in ("start_pos_arr,end_pos_arr", "(start_pos_arr,end_pos_arr)")]
-    ok = ok and len(sp) == 1 and X.U(sp[0]) == "start_pos_arr[0]" and len(ep) == 1 and X.U(ep[0]) == "end_pos_arr[0]" \
-        and len(se) == 1 and X.U(se[0].value).replace(" ", "").replace("'", '"') == '(marked_pos["start"],marked_pos["end"])'
-    ctx.judge(fp, ok, {"targeted": X.U(tl[0])[:100] if tl else None, "positions": X.U(se[0].value) if se else None},
+    # start_pos <- marked_pos["start"][0], end_pos <- marked_pos["end"][0]   (through any chain of single-definition locals)
+    def origin(name: str) -> str:
+        d = X.assignments_to(fp.node, name)
+        return X.U(X.expand_locals(d[0], fp.node, keep=("marked_pos",))).replace("'", '"') if len(d) == 1 else "?"
+    se = (origin("start_pos"), origin("end_pos"))
+    ok = ok and se == ('marked_pos["start"][0]', 'marked_pos["end"][0]')
+    ctx.judge(fp, ok, {"targeted": X.U(tl[0])[:100] if tl else None, "positions": list(se)},
               "the targeted maze read back gets start from the START pixel and end from the END pixel", "start and end are swapped on read-back")
     # solved: the ordered solution starts at start and ends at end
     sol0 = X.assignments_to(fp.node, "solution")
